@@ -184,18 +184,25 @@ let judge _id (c : cursor) (r : cursor) : bool * string =
             | _ -> OFilterPf (next_pf c)) in
         if not (op_okb f !s o) then failwith "generator: bad FilterMap query";
         let e = (match snd (spec_step !s o) with RIds l -> List.map (fun n -> 1000 + int_of_nat n) l | _ -> failwith "spec") in
-        let got = (try List.map int_of_nat (next_smalls r) with
-            | Failure m -> oracle_fail "no_UB" kind ("short/garbled implementation output: " ^ m)
-            | Garbage g -> oracle_fail "FilterMap.items_of_matching_ids" "FilterMap::filter" ("garbage " ^ g)) in
         let norm l = if ordered then l else List.sort compare l in
-        if norm got <> norm e then
-          oracle_fail "FilterMap.items_of_matching_ids" "FilterMap::filter" ("impl items " ^ str_ints got ^ " expected " ^ str_ints e);
+        let one which =
+          let site = "FilterMap::filter" ^ (match tok with "f" -> "(f,offset)" | "p" -> "(pf)" | _ -> "(f)") ^ which in
+          let got = (try List.map int_of_nat (next_smalls r) with
+              | Failure m -> oracle_fail "no_UB" kind ("short/garbled implementation output: " ^ m)
+              | Garbage g -> oracle_fail "FilterMap.items_of_matching_ids" site ("garbage " ^ g)) in
+          if norm got <> norm e then
+            oracle_fail "FilterMap.items_of_matching_ids" site ("impl items " ^ str_ints got ^ " expected " ^ str_ints e) in
+        one ""; one "const";
         incr nq
       | "z" ->
         let (a, b) = (try let a = int_of_nat (next_small r) in let b = int_of_nat (next_small r) in (a, b)
                       with Garbage g -> oracle_fail "FilterMap.size" "FilterMap::size" ("garbage " ^ g)) in
         let n = List.length (snd !s) in
-        if a <> n || b <> n then oracle_fail "FilterMap.size" "FilterMap::size" "size differs from the number of stored items"
+        if a <> n then oracle_fail "FilterMap.size" "FilterMap::size" "size differs from the number of stored items";
+        if b <> n then oracle_fail "size_eq_card" "FilterMap::getTrie" "trie size differs from the number of stored items";
+        let okc = next_int r in let okf = next_int r in
+        if okc <> 1 then oracle_fail "FilterMap.container" "FilterMap::operator[]" "operator[] / begin..end / getContainer disagree";
+        if okf <> 1 then oracle_fail "FilterMap.getF" "FilterMap::getF" "getF differs from the constructor argument"
       | _ -> failwith ("unknown filtermap op " ^ tok)
     done;
     (!nq > 0 && List.length (snd !s) > 1, kind)
